@@ -5,6 +5,7 @@ import Gin.Drv.ScopesDom
 import Gin.Drv.ParseDom
 import Gin.Drv.SchedDom
 import Gin.Drv.ExcDom
+import Gin.Drv.DynDom
 open Lean Gin.Drv
 
 def handle (j : Json) : Json :=
@@ -15,6 +16,7 @@ def handle (j : Json) : Json :=
   | "parse" => Gin.Drv.ParseDom.run j
   | "sched" => Gin.Drv.SchedDom.run j
   | "exc" => Gin.Drv.ExcDom.run j
+  | "dyn" => Gin.Drv.DynDom.run j
   | "parse2" => Json.mkObj [("runs", Json.arr ((jarr (jfield j "runs")).map Gin.Drv.ParseDom.run).toArray)]
   | d => Json.mkObj [("error", Json.str s!"unknown domain {d}")]
 
